@@ -16,6 +16,7 @@ import (
 // t, or an exemplar) has to be declared on the wrapper and start with the `> app.maxTime` test.
 func runC41Wrapper(c *eng.Ctx) {
 	p := c.P
+	defer runC41Counts(c)
 	for _, w := range []struct{ typ, field, iface string }{
 		{"remoteWriteAppender", "Appender", "storage:Appender"},
 		{"remoteWriteAppenderV2", "AppenderV2", "storage:AppenderV2"},
@@ -64,5 +65,38 @@ func runC41Wrapper(c *eng.Ctx) {
 		sort.Strings(timed)
 		c.Check("R5", "storage/remote:"+w.typ, fmt.Sprintf("declares every method of %s that receives the sample's timestamp (%s)", w.iface, strings.Join(timed, ", ")), len(missing) == 0 && len(timed) >= 1, p.Pos(named.Obj().Pos()),
 			"promoted unguarded from the wrapped appender: "+strings.Join(missing, ", ")+" — called before Append, on an empty head they set the head's time range to the refused timestamp and every current sample is out of bounds afterwards")
+	}
+}
+
+// C41.R6 (finding F59, open): "the written counts equal what was stored".  The receiver counts a sample when Append
+// returns nil; the head re-checks ordering and duplicates inside the transaction only at Commit and drops the losers
+// silently, and Commit returns nothing but an error.  So the counts can only be right if they are corrected after
+// Commit from something Commit reports — which the code cannot do today.  The rule states that dependency: after a
+// successful Commit the statistics are adjusted (an assignment to the stats between Commit and the return), or the
+// appender's Commit returns more than an error.
+func runC41Counts(c *eng.Ctx) {
+	p := c.P
+	commit := p.Func("storage:Appender.Commit")
+	sig := commit.Type().(*types.Signature)
+	reportsDrops := sig.Results().Len() > 1
+	for _, fn := range []string{"storage/remote:writeHandler.writeV2"} {
+		f := c.Fn(fn)
+		adjusted := false
+		var commitPos int
+		ast.Inspect(f.Body, func(n ast.Node) bool {
+			if call, ok := n.(*ast.CallExpr); ok && nodeText(call.Fun) == "app.Commit" {
+				commitPos = int(call.Pos())
+			}
+			if as, ok := n.(*ast.AssignStmt); ok && commitPos > 0 && int(as.Pos()) > commitPos {
+				for _, l := range as.Lhs {
+					if strings.HasPrefix(nodeText(l), "s.") {
+						adjusted = true
+					}
+				}
+			}
+			return true
+		})
+		c.Check("R6", f.Where(), "the statistics returned after Commit reflect what Commit kept (Commit reports drops, or the counts are corrected after it)", reportsDrops || adjusted, p.Pos(f.Body.Pos()),
+			"samples are counted when Append returns nil; two samples of one series sent in the wrong order (or with equal timestamps) in one request are both counted, Commit drops one without telling")
 	}
 }
